@@ -377,6 +377,40 @@ class Keys(object):
         self.folder = folder or Folder(unit)
         self.subst = subst or {}     # decl id -> key (alias substitution)
 
+    def _elem_nf(self, e, deref=False):
+        """Element access through a write-once pointer local into a container (begin[i], *(end - 1),
+        p->f): keyed as the direct subscript container[i] it denotes."""
+        env = getattr(self, 'ptrenv', None)
+        if not env or getattr(self, '_in_nf', False):
+            return None
+        x = peel(e)
+        if not any(y.get('kind') == 'DeclRefExpr' and (y.get('referencedDecl') or {}).get('id') in env for y in walk(x)):
+            return None
+        if any(y.get('kind') == 'UnaryOperator' and y.get('opcode') in ('++', '--') for y in walk(x)):
+            return None
+        from .ptrnorm import PtrNorm
+        self._in_nf = True
+        try:
+            r = PtrNorm(self, env).norm(x)
+        finally:
+            self._in_nf = False
+        if r is None:
+            return None
+        if deref and r[0] == 'ptr':
+            r = ('elem', r[1], r[2])
+        if r[0] != 'elem':
+            return None
+        lin = r[2]
+        syms = sorted(k_ for k_ in lin if k_ != '')
+        c = lin.get('', 0)
+        if not syms:
+            idx = 'n:%d' % c
+        elif len(syms) == 1 and lin[syms[0]] == 1:
+            idx = syms[0] if c == 0 else '(%s %s n:%d)' % (syms[0], '+' if c > 0 else '-', abs(c))
+        else:
+            return None
+        return '%s[%s]' % (r[1], idx)
+
     def key(self, e):
         e = peel(e)
         if e is None:
@@ -402,13 +436,24 @@ class Keys(object):
             return 'this'
         if k == 'MemberExpr':
             ks = kids(e)
+            if ks and e.get('isArrow') and getattr(self, 'ptrenv', None):
+                nf = self._elem_nf(ks[0], deref=True)
+                if nf is not None:
+                    return '%s.%s' % (nf, e.get('name'))
             b = self.key(ks[0]) if ks else 'this'
             return '%s.%s' % (b, e.get('name'))
         if k == 'ArraySubscriptExpr':
             a, b = kids(e)
+            nf = self._elem_nf(e)
+            if nf is not None:
+                return nf
             return '%s[%s]' % (self.key(a), self.key(b))
         if k == 'UnaryOperator':
             op = e.get('opcode')
+            if op == '*':
+                nf = self._elem_nf(e)
+                if nf is not None:
+                    return nf
             x = self.key(kids(e)[0])
             if op == '*':
                 if x.startswith('&(') and x.endswith(')'):
